@@ -126,14 +126,335 @@ def build_cases(ctx):
     return co
 
 
+# ----------------------------------------------------------------------------- context reuse family
+BAD_POL = "Monomial;\nDegree=3;\nInteger;\nReal;\nDense;\n\n1\n2\nx7\n4\n"
+
+
+def reuse_sequences(ctx):
+    """Sequences of 2-3 solves on ONE context.  A sequence = (pattern name, [(case, opts), ...]).  Every segment is
+    an equation with a generator-side exact form (case["coeffs"]), so that it is judged exactly like a fresh solve.
+    The patterns are aimed at what a context keeps between solves: zero_roots, n / degree (resize), the
+    approximations' status/again/approximated flags, the secular equation built for the previous input, the working
+    precision reached by a previous `approximate`, the sticky error state."""
+    rng = ctx.rng
+    Z = (Fr(0), Fr(0))
+    def tag(c, t, cls=None):
+        c = dict(c); c["tag"] = t
+        if cls: c["cls"] = cls
+        return c
+    def mono(d=None):
+        return tag(G.mono_case("m", "reuse-monomial", G.rand_int_poly(rng, d or rng.randint(2, 6), rng.choice([4, 10])), rng), "mono")
+    def roots(k=None):
+        rs = list({G.rand_dyadic_root(rng, 4, 2, rng.random() < 0.5) for _ in range(k or rng.randint(2, 5))})
+        return tag(G.from_roots_case("r", "reuse-monomial", rs, rng), "mono")
+    def zero(d=None, k=None):
+        c = G.rand_int_poly(rng, d or rng.randint(2, 5), 6, complex_=(rng.random() < 0.3))
+        return tag(G.mono_case("z", "reuse-zero-roots", [Z] * (k or rng.randint(1, 3)) + c, rng, sparse=False), "zero-mono")
+    def zero1():
+        c = [(Fr(rng.randint(-9, 9) or 1), Fr(0)), (Fr(rng.randint(1, 9)), Fr(0))]
+        return tag(G.mono_case("z1", "reuse-zero-roots", [Z] * rng.randint(1, 3) + c, rng, sparse=False), "zero-deg1")
+    def deg1():
+        return tag(G.mono_case("d1", "reuse-monomial", [(Fr(rng.randint(-9, 9) or 1), Fr(0)), (Fr(rng.randint(1, 9)), Fr(0))], rng), "deg1")
+    def sec(n=None): return tag(G.secular_case("s", rng, n or rng.randint(2, 5), rng.random() < 0.3), "secular", "reuse-secular")
+    def cheb(n=None): return tag(G.chebyshev_case("c", rng, n or rng.randint(2, 5)), "chebyshev", "reuse-chebyshev")
+    def bad(): return tag({"name": "bad", "cls": "reuse-parse-error", "text": BAD_POL, "coeffs": None, "degree": 0}, "bad")
+    U, Sx = ["-a", "u"], ["-a", "s"]
+    I, A = ["-G", "i"], ["-G", "a", "-o", "30"]
+    def same(c): return dict(c)
+    pats = []
+    pats.append(("zero>sec", lambda: [(zero(), Sx + I), (sec(), Sx + I)]))
+    pats.append(("zero>cheb", lambda: [(zero(), U + I), (cheb(), Sx + I)]))
+    pats.append(("zero>mono>sec", lambda: [(zero(), U + I), (mono(), U + A), (sec(), Sx + A)]))
+    pats.append(("iso-s>zero1-s", lambda: [(mono(), Sx + I), (zero1(), Sx + I)]))
+    pats.append(("iso-u>zero1-s", lambda: [(roots(), U + I), (zero1(), Sx + I)]))
+    pats.append(("iso-s>deg1-s", lambda: [(mono(), Sx + I), (deg1(), Sx + I)]))
+    pats.append(("mono>bad>mono", lambda: [(mono(), U + I), (bad(), U + I), (mono(), U + I)]))
+    def iso_then_approx(alg):
+        c = roots()
+        return [(c, alg + I), (same(c), alg + A)]
+    pats.append(("iso>approx-u", lambda: iso_then_approx(U)))
+    pats.append(("iso>approx-s", lambda: iso_then_approx(Sx)))
+    pats.append(("approx>iso-smaller", lambda: [(mono(6), Sx + A), (mono(3), Sx + I)]))
+    pats.append(("sec>zero-u", lambda: [(sec(), Sx + I), (zero(), U + I)]))
+    pats.append(("cheb>sec>zero", lambda: [(cheb(), Sx + I), (sec(), Sx + A), (zero(), Sx + I)]))
+    pats.append(("big>small>big", lambda: [(mono(6), U + I), (mono(2), Sx + I), (mono(5), U + A)]))
+    pats.append(("zero>mono-same-degree", lambda: [(zero(3, 2), Sx + I), (mono(5), Sx + I)]))
+    pats.append(("approx-u>zero1-u", lambda: [(roots(), U + A), (zero1(), U + I)]))
+    out = []
+    for rep in range(ctx.pick(2, 12)):
+        for name, fn in pats:
+            if name == "mono>bad>mono" and rep > 0: continue
+            segs = []
+            for k, (c, o) in enumerate(fn()):
+                c = dict(c); c["name"] = "reuse[%s]%d:%s" % (name, k, c["tag"])
+                segs.append((c, with_threads(o)))
+            out.append((name, segs))
+    return out
+
+
+def run_reuse(ctx, binary, seqs, env, timeout=120):
+    """run harness/c01_reuse on every sequence; one record per segment (same shape as e2e.run_records)"""
+    import subprocess, time
+    wd = os.path.join(ctx.scratch, "reuse"); os.makedirs(wd, exist_ok=True)
+    def one(js):
+        j, (name, segs) = js
+        argv = [binary]
+        for k, (c, o) in enumerate(segs):
+            path = os.path.join(wd, "seq%d_%d.pol" % (j, k))
+            with open(path, "w") as f: f.write(c["text"])
+            argv += ([] if k == 0 else ["--"]) + [path] + list(o)
+        t0 = time.time()
+        try:
+            p = subprocess.run(argv, stdout=subprocess.PIPE, stderr=subprocess.PIPE, env=env, timeout=timeout)
+            out = p.stdout.decode("utf-8", "replace"); err = p.stderr.decode("utf-8", "replace"); rc = p.returncode
+        except subprocess.TimeoutExpired:
+            out, err, rc = "", "", None
+        wall = time.time() - t0
+        parts = {}
+        cur = None
+        for ln in out.split("\n"):
+            if ln.startswith("SEGMENT-END "): cur = None
+            elif ln.startswith("SEGMENT "): cur = int(ln.split()[1]); parts[cur] = []
+            elif cur is not None: parts[cur].append(ln)
+        recs = []
+        for k, (c, o) in enumerate(segs):
+            done = ("SEGMENT-END %d\n" % k) in out
+            if done:
+                try: r = S.parse_export("\n".join(parts.get(k, [])))
+                except (MemoryError, OverflowError, ValueError) as e:
+                    r = S.SolveResult(); r.kind = "unparsed"; r.msg = repr(e)[:200]
+            else:
+                r = S.SolveResult()
+                r.kind = "timeout" if rc is None else ("sanitizer" if rc in (97, 98) or "AddressSanitizer" in err or "runtime error:" in err else "crash")
+                r.stderr = err[-3000:]
+            r.rc = rc; r.wall = wall if k == len(segs) - 1 else 0.0
+            recs.append({"case": c, "opts": o, "res": r, "poly": None, "oracle": None, "why": "",
+                         "reuse": {"pattern": name, "k": k, "segments": [{"name": cc["name"], "cls": cc["cls"], "text": cc["text"], "opts": oo,
+                                                                          "coeffs": None} for cc, oo in segs]}})
+        return recs
+    res = []
+    for rs in e2e.par_map(one, list(enumerate(seqs)), workers=8): res += rs
+    return res
+
+
+# ----------------------------------------------------------------------------- event traces (tie of the skeleton theorems)
+TRACE_WRAP = ["mps_polynomial_fnewton", "mps_polynomial_dnewton", "mps_polynomial_mnewton", "mps_secular_fnewton", "mps_secular_dnewton",
+              "mps_secular_mnewton", "mps_improve", "mps_validate_inclusions", "mps_faberth_packet", "mps_daberth_packet", "mps_maberth_packet"]
+TRACE_MAX_BITS = 12000           # numbers longer than this, and radii >= 2^1000 (DBL_MAX, RDPE_BIG), count as "no claim"
+SITE = {"W": "classic-worker", "I": "improve_root", "J": "jacobi-aberth", "S": "secular-iteration", "V": "validate-inclusions", "R": "returned"}
+IMPROVE_SLACK_LOG2 = 40          # improve_root adds its terms in double-mantissa DPE arithmetic (round to nearest): see trace_tie
+
+
+def _mpx(tok):
+    h, e = tok.split(":"); m = int(h, 16); e = int(e)
+    return Fr(m * (1 << e)) if e >= 0 else Fr(m, 1 << (-e))
+
+
+def _bits(x): return x.numerator.bit_length() + x.denominator.bit_length()
+
+
+def parse_trace(text):
+    """RE lines of harness/c01_trace.c -> {root index: [obs]}, obs = dict(k='e'|'x', ar, site, again, c=(re, im) or None, r=Fraction or None)"""
+    per = collections.defaultdict(list)
+    for ln in text.split("\n"):
+        if not ln.startswith("RE "): continue
+        t = ln.split()
+        ar, ev, i, site, again = t[1], t[2], int(t[3]), t[4], int(t[5])
+        if ar == "f": re_, im_, rad = S.fr_of_dhex(t[6]), S.fr_of_dhex(t[7]), S.fr_of_dhex(t[8])
+        elif ar == "d": re_, im_, rad = S.fr_of_rdpe(t[6]), S.fr_of_rdpe(t[7]), S.fr_of_rdpe(t[8])
+        else: re_, im_, rad = _mpx(t[6]), _mpx(t[7]), S.fr_of_rdpe(t[8])
+        ok = all(isinstance(x, Fr) and _bits(x) <= TRACE_MAX_BITS for x in (re_, im_))
+        if not (isinstance(rad, Fr) and ok and _bits(rad) <= TRACE_MAX_BITS and rad < Fr(1 << 1000)): rad = None
+        per[i].append({"k": "e" if ev == "entry" else "x", "ar": ar, "site": site, "again": again, "c": (re_, im_) if ok else None, "r": rad})
+    return per
+
+
+def _qtok(x):
+    return "%s0x%x/0x%x" % ("-" if x < 0 else "", abs(x.numerator), x.denominator)
+
+
+def _obs_tokens(o):
+    c = o["c"] or (Fr(0), Fr(0))
+    return "%s %s %s %s" % (o["k"], _qtok(c[0]), _qtok(c[1]), _qtok(o["r"]) if (o["r"] is not None and o["c"] is not None) else "-")
+
+
+def select_trace_jobs(ctx, co, count):
+    """a spread of (case, options) of the main family for the hooked runs: exact inputs of small degree, every algorithm /
+    goal / phase / Jacobi / recursive / crude configuration when available"""
+    seen = collections.Counter(); out = []
+    pool = [(c, o) for c, o in co if c.get("coeffs") and 1 <= c["degree"] <= 8 and c["cls"] not in ("dyadic-float",)]
+    ctx.rng.shuffle(pool)
+    for c, o in pool:
+        key = (alg_of(o), "a" if "a" in o[o.index("-G") + 1:o.index("-G") + 2] else "i", "-b" in o, "-t" in o, "-r" in o, "-c" in o,
+               c["cls"] in ("secular", "chebyshev") and c["cls"])
+        if seen[key] >= max(1, count // 10): continue
+        seen[key] += 1; out.append((c, o))
+        if len(out) >= count: break
+    return out
+
+
+def run_trace_jobs(ctx, binary, jobs, env, timeout=120):
+    """like e2e.run_records_safe, but keeps the raw text (RE lines) in res.raw"""
+    import subprocess, time
+    wd = os.path.join(ctx.scratch, "trace"); os.makedirs(wd, exist_ok=True)
+    def one(ij):
+        i, (c, o) = ij
+        path = os.path.join(wd, "t%d.pol" % i)
+        with open(path, "w") as f: f.write(c["text"])
+        t0 = time.time()
+        try:
+            p = subprocess.run([binary, path] + list(o), stdout=subprocess.PIPE, stderr=subprocess.PIPE, env=env, timeout=timeout)
+            out = p.stdout.decode("utf-8", "replace"); err = p.stderr.decode("utf-8", "replace"); rc = p.returncode
+        except subprocess.TimeoutExpired:
+            r = S.SolveResult(); r.kind = "timeout"; r.raw = ""; return r
+        if rc != 0:
+            r = S.SolveResult(); r.kind = "sanitizer" if rc in (97, 98) or "AddressSanitizer" in err else "crash"; r.raw = ""; r.rc = rc; return r
+        try: r = S.parse_export(out)
+        except (MemoryError, OverflowError, ValueError) as e:
+            r = S.SolveResult(); r.kind = "unparsed"; r.msg = repr(e)[:200]
+        r.raw = out; r.rc = rc; r.wall = time.time() - t0
+        return r
+    res = e2e.par_map(one, list(enumerate(jobs)), workers=8)
+    return [{"case": c, "opts": o, "res": r, "poly": None, "oracle": None, "why": ""} for (c, o), r in zip(jobs, res)]
+
+
+def trace_tie(ctx, tbinary, jobs, env, stats, cap):
+    """Run the hooked harness on `jobs`, classify every transition of every root with the extracted acceptor (bin/trc),
+    validate every fresh-radius obligation with the certified oracle, and require every improve_root step to be
+    move-and-enlarge of its Newton disc.  Returns (evaluations, samples)."""
+    recs = run_trace_jobs(ctx, tbinary, jobs, env, timeout=ctx.pick(60, 600))
+    evals = 0; samples = []
+    todo = []
+    for rec in recs:
+        r = rec["res"]
+        if r.kind != "ok":
+            stats["trace:skipped:" + r.kind] += 1; continue
+        per = parse_trace(r.raw)
+        discs = S.discs_of(r)
+        traces = []
+        for i in range(len(r.accm)):
+            tr = list(per.get(i, []))
+            d = discs[i]
+            rad = d[2] if (d[2] is not None and d[2] < Fr(1 << 1000) and _bits(d[2]) <= TRACE_MAX_BITS) else None
+            okc = _bits(d[0]) <= TRACE_MAX_BITS and _bits(d[1]) <= TRACE_MAX_BITS
+            tr.append({"k": "f", "ar": "m", "site": "R", "again": 0, "c": (d[0], d[1]) if okc else None, "r": rad})
+            traces.append(tr)
+        rec["traces"] = traces
+        todo.append(rec)
+    # ---- the extracted acceptor: one T line per root
+    lines = []; owner = []
+    for rec in todo:
+        for i, tr in enumerate(rec["traces"]):
+            lines.append("T %d %s" % (len(tr), " ".join(_obs_tokens(o) for o in tr))); owner.append((rec, i))
+    outs = ctx.run_model_lines("trc", lines, workers=8) if lines else []
+    for (rec, i), line, out in zip(owner, lines, outs):
+        t = out.split()
+        tr = rec["traces"][i]
+        if len(t) != 2 or len(t[0]) != len(tr) or sum(1 for ch in t[0] if ch in "1F") != int(t[1]):
+            raise vf.InfraError("bin/trc answered %r for a trace of %d observations" % (out[:80], len(tr)))
+        for o, ch in zip(tr, t[0]): o["cls"] = ch
+    # ---- improve_root steps: Newton disc at exit (site I) -> next observation of that root
+    ilines = []; iown = []
+    for rec in todo:
+        for i, tr in enumerate(rec["traces"]):
+            for j, o in enumerate(tr):
+                if o["site"] == "I" and o["k"] == "x" and j + 1 < len(tr) and o["r"] is not None and o["c"] is not None:
+                    nx = tr[j + 1]
+                    if nx["r"] is None or nx["c"] is None: stats["trace:improve:next-disc-no-claim"] += 1; continue
+                    slack = nx["r"] + nx["r"] / (1 << IMPROVE_SLACK_LOG2)
+                    ilines.append("I %s %s %s %s %s %s" % (_qtok(o["c"][0]), _qtok(o["c"][1]), _qtok(o["r"]), _qtok(nx["c"][0]), _qtok(nx["c"][1]), _qtok(nx["r"])))
+                    ilines.append("I %s %s %s %s %s %s" % (_qtok(o["c"][0]), _qtok(o["c"][1]), _qtok(o["r"]), _qtok(nx["c"][0]), _qtok(nx["c"][1]), _qtok(slack)))
+                    iown.append((rec, i, j))
+    iouts = ctx.run_model_lines("trc", ilines, workers=8) if ilines else []
+    for k, (rec, i, j) in enumerate(iown):
+        exact, loose = iouts[2 * k].strip(), iouts[2 * k + 1].strip()
+        evals += 1
+        cc = cfg_class(rec); c = rec["case"]
+        if exact == "1": stats["trace:improve:exact-move-and-enlarge"] += 1
+        elif loose == "1": stats["trace:improve:move-and-enlarge-up-to-2^-%d-of-the-radius(fresh obligation)" % IMPROVE_SLACK_LOG2] += 1
+        else:
+            o, nx = rec["traces"][i][j], rec["traces"][i][j + 1]
+            stats["VIOLATION:trace:improve"] += 1
+            ctx.violation("correspondence:improve-not-move-and-enlarge:%s:%s" % (cc, c["name"]),
+                          "improve_root step of root %d: the disc held after the step (centre %.17g %.17g radius %.3g, %s) does not contain the Newton disc of the "
+                          "step (centre %.17g %.17g radius %.3g): not move-and-enlarge (Skel SImprove); %s %s"
+                          % (i, sf(nx["c"][0]), sf(nx["c"][1]), sf(nx["r"]), SITE.get(nx["site"]), sf(o["c"][0]), sf(o["c"][1]), sf(o["r"]), c["name"], " ".join(rec["opts"])),
+                          {"case": c["name"], "class": c["cls"], "text": c["text"], "opts": rec["opts"], "config": cc, "trace": True, "root": i, "event": j,
+                           "newton_disc": [qs(o["c"][0]), qs(o["c"][1]), qs(o["r"])], "next_disc": [qs(nx["c"][0]), qs(nx["c"][1]), qs(nx["r"])]}, True)
+    # ---- obligations -> oracle
+    def tgt(rec):
+        rs = [o["r"] for tr in rec["traces"] for o in tr if o.get("cls") in ("1", "F") and o["r"] is not None and o["r"] > 0]
+        return (e2e.min_radius_log2([(0, 0, x) for x in rs], floor=-10 ** 9) - 16) if rs else -60
+    for rec in todo: rec["target_override"] = tgt(rec)
+    groups = e2e.certify_records_grouped(ctx, todo, max_bits=cap, max_degree=ctx.pick(20, 40), timeout=ctx.pick(45, 240))
+    def one(g):
+        st = collections.Counter(); viol = []; ev = 0; sm = []
+        for rec in g:
+            orc = rec["oracle"]; cc = cfg_class(rec); c = rec["case"]
+            obl = [(i, j, o) for i, tr in enumerate(rec["traces"]) for j, o in enumerate(tr) if o["cls"] in ("1", "F")]
+            for i, tr in enumerate(rec["traces"]):
+                for j, o in enumerate(tr):
+                    st["trace:class:%s:%s" % ({"N": "no-claim", "1": "first-claim(fresh)", "S": "same-disc", "E": "same-centre-larger-radius",
+                                                "M": "move-and-enlarge", "F": "fresh-radius"}[o["cls"]], SITE.get(o["site"], o["site"]) + ("-entry" if o["k"] == "e" else "-exit" if o["k"] == "x" else ""))] += 1
+            uniq = {}
+            for i, j, o in obl: uniq.setdefault((o["c"], o["r"]), []).append((i, j, o))
+            keys = list(uniq)
+            try: ans = e2e.count_discs_bounds(orc, [(k[0][0], k[0][1], k[1]) for k in keys]) if keys else []
+            except Exception as e:
+                st["trace:oracle-error"] += 1; continue
+            for k, (lo, hi) in zip(keys, ans):
+                for i, j, o in uniq[k]:
+                    ev += 1
+                    if lo >= 1: st["trace:obligation:contains-root:" + o["ar"]] += 1
+                    elif hi == 0:
+                        st["VIOLATION:trace:obligation"] += 1
+                        viol.append(("correspondence:newton-contract:%s:%s" % (cc, c["name"]),
+                                     "event trace of root %d, observation %d (%s %s, arithmetic %s): the fresh disc centre (%.17g, %.17g) radius %.3g contains no root "
+                                     "(certified): the hypothesis of C01_disc_invariant / C01_trace_sound fails at this event; %s %s"
+                                     % (i, j, SITE.get(o["site"]), {"e": "entry", "x": "exit", "f": "returned"}[o["k"]], o["ar"], sf(o["c"][0]), sf(o["c"][1]), sf(o["r"]),
+                                        c["name"], " ".join(rec["opts"])),
+                                     {"case": c["name"], "class": c["cls"], "text": c["text"], "opts": rec["opts"], "config": cc, "trace": True, "root": i, "event": j,
+                                      "disc": [qs(o["c"][0]), qs(o["c"][1]), qs(o["r"])], "site": SITE.get(o["site"]), "max_bits": c.get("max_bits")}, True))
+                    else: st["trace:obligation:undecided"] += 1
+            if len(sm) < 2:
+                tr0 = rec["traces"][0]
+                sm.append({"case": c["name"], "opts": rec["opts"], "config": cc, "root0_classes": "".join(o["cls"] for o in tr0)[:120],
+                           "root0_sites": "".join(o["site"] for o in tr0)[:120], "obligations": len(obl), "observations": sum(len(t) for t in rec["traces"])})
+        return st, viol, ev, sm
+    for st, viol, ev, sm in e2e.par_map(one, groups, workers=8):
+        stats.update(st); evals += ev
+        for v in viol: ctx.violation(*v)
+        for x in sm:
+            if len(samples) < 4: samples.append(x)
+    for rec in todo:
+        if rec["oracle"] is None: stats["trace:not-judged:" + (rec["why"].split(":")[0] or "?")] += 1
+    for g in groups:
+        try: g[0]["oracle"].close()
+        except Exception: pass
+    stats["trace:solves"] += len(todo)
+    return evals, samples
+
+
 def judge(ctx, rec, stats, samples, nontrivial):
     """all four clauses for one solve; returns number of evaluations"""
     r, c, opts = rec["res"], rec["case"], rec["opts"]
     cc = cfg_class(rec)
     rp = {"case": c["name"], "class": c["cls"], "text": c["text"], "opts": opts, "config": cc, "max_bits": c.get("max_bits")}
+    if rec.get("reuse"):
+        rp["reuse"] = {"pattern": rec["reuse"]["pattern"], "k": rec["reuse"]["k"],
+                       "segments": [{k: v for k, v in s.items() if k != "coeffs"} for s in rec["reuse"]["segments"]]}
+        stats["reuse:judged-segment"] += 1
     ev = 0
     n = len(r.accm)
     zr = r.meta.get("zero_roots", 0)
+    if r.poly is not None and r.poly["type"] != "mps_monomial_poly" and zr != 0:
+        # zero roots are only ever deflated from a monomial input: for a secular / Chebyshev input the reported count
+        # must be 0 (the equation judged below would otherwise be x^zr * input, not the input)
+        ctx.violation("a:count:%s:%s" % (cc, c["name"]),
+                      "%d approximations + %d zero roots reported for a %s input of degree %s: zero roots that are not roots of the input (%s %s)"
+                      % (n, zr, KIND.get(r.poly["type"]), r.parsed_degree, c["name"], " ".join(opts)), dict(rp, clause="a"))
+        stats["VIOLATION:a:" + cc] += 1
+        return 1
     # ---- (a) count identity
     declared = r.parsed_degree
     deg = declared
@@ -233,19 +554,43 @@ def judge(ctx, rec, stats, samples, nontrivial):
     return ev
 
 
+def load_own_known(ctx):
+    """known/C01.json is the fragment lib/mkmanifest.py merges into known_findings.json; entries of the fragment that
+    the merged file does not have yet are honoured as well (same matching rules, see vf.Ctx.violation)"""
+    p = os.path.join(vf.VERIF, "known", "C01.json")
+    try: frag = json.load(open(p)).get("findings", [])
+    except Exception: return
+    have = set((k.get("signature"), k.get("signature_regex")) for k in ctx.known)
+    for f in frag:
+        if f.get("property") == ctx.pid and f.get("status", "open") == "open" and (f.get("signature"), f.get("signature_regex")) not in have:
+            ctx.known.append(f)
+
+
 def run(ctx):
+    load_own_known(ctx)
     ctx.prove()
     ctx.proof_violation_if_broken()
     binary = ctx.compile_harness(["vf_solve.c"], "vf_solve", mode="san")
     env = ctx.san_env()
+    rbinary = ctx.compile_harness(["c01_reuse.c"], "c01_reuse", mode="san")
+    seqs = []
     if ctx.replay:
         rp = json.load(open(ctx.replay))
-        case = {"name": rp["case"], "cls": rp.get("class", "replay"), "text": rp["text"], "coeffs": None, "degree": 0, "max_bits": rp.get("max_bits")}
-        co = [(case, rp["opts"])]
+        if rp.get("reuse"):
+            co = []
+            seqs = [(rp["reuse"]["pattern"], [({"name": s["name"], "cls": s.get("cls", "replay"), "text": s["text"], "coeffs": None, "degree": 0,
+                                                "max_bits": rp.get("max_bits")}, s["opts"]) for s in rp["reuse"]["segments"]])]
+        else:
+            case = {"name": rp["case"], "cls": rp.get("class", "replay"), "text": rp["text"], "coeffs": None, "degree": 0, "max_bits": rp.get("max_bits")}
+            co = [(case, rp["opts"])]
     else:
         co = build_cases(ctx)
-    ctx.log("running %d solves" % len(co))
-    recs = e2e.run_records_safe(ctx, binary, co, env, timeout=ctx.pick(30, 600))
+        seqs = reuse_sequences(ctx)
+    ctx.log("running %d solves and %d reuse sequences (%d solves on reused contexts)" % (len(co), len(seqs), sum(len(s[1]) for s in seqs)))
+    only = os.environ.get("VERIF_C01_ONLY", "")          # development aid: "trace" / "reuse" run only that family
+    recs = e2e.run_records_safe(ctx, binary, co if not only else [], env, timeout=ctx.pick(30, 600))
+    rrecs = run_reuse(ctx, rbinary, seqs if only in ("", "reuse") else [], env, timeout=ctx.pick(60, 600))
+    recs += rrecs
     nfloat = mark_exact_float_inputs(recs)
     ctx.log("solves done")
     # resolution cap by degree (cost of a certificate ~ degree^2 * bits^2)
@@ -285,6 +630,14 @@ def run(ctx):
         try: g[0]["oracle"].close()
         except Exception: pass
     ctx.log("judged")
+    # ---- event traces: the hypothesis of the skeleton theorems checked per event on a hooked build
+    tev, tsamples = 0, []
+    if (not ctx.replay or json.load(open(ctx.replay)).get("trace")) and only in ("", "trace"):
+        tbinary = ctx.compile_harness(["c01_trace.c"], "c01_trace", mode="san", extra_ldflags=" ".join("-Wl,--wrap=" + f for f in TRACE_WRAP))
+        tjobs = select_trace_jobs(ctx, co, ctx.pick(30, 200)) if not ctx.replay else co
+        tev, tsamples = trace_tie(ctx, tbinary, tjobs, env, stats, cap)
+        evaluations += tev
+        ctx.log("event traces: %d solves, %d evaluations" % (len(tjobs), tev))
     judged = [r for r in lists if r["oracle"] is not None]
     detail = {k: v for k, v in stats.items() if k.startswith(("undecided-case:", "skipped-case:"))}
     for k in detail: del stats[k]
@@ -297,6 +650,10 @@ def run(ctx):
            "disagreements_rule": "oracle answers that stayed undecided (tiny disc straddles the boundary of the returned disc / precision cap); never reported",
            "histogram": dict(stats),
            "why_not_certified": dict(collections.Counter((r["why"].split(":")[0] or "?") for r in recs if r["oracle"] is None)),
+           "trace_evaluations": tev, "trace_samples": tsamples,
+           "reuse_sequences": len(seqs), "reuse_solves": len(rrecs),
+           "reuse_pattern_histogram": dict(collections.Counter(r["reuse"]["pattern"] for r in rrecs)),
+           "reuse_segment_outcome_histogram": dict(collections.Counter("%d:%s:%s" % (r["reuse"]["k"], r["case"].get("tag", "?"), r["res"].kind) for r in rrecs)),
            "class_histogram": dict(collections.Counter(r["case"]["cls"] for r in recs)),
            "config_histogram": dict(collections.Counter(cfg_class(r) for r in lists)),
            "options_histogram": dict(collections.Counter(" ".join(x for x in r["opts"] if x not in ("-j", "1")) for r in recs)),
